@@ -396,8 +396,10 @@ func (r *C15Run) Exec(line string) error {
 			// submitted during this run is still judged (on the unchanged tree syncRules aborts BEFORE submitting rules)
 			r.rep.Hit("fullsync-with-injected-ipset-create-failure")
 			r.classifyFailures("fullsync "+w[1]+" (one ipset create failed)", all, true)
+			r.judgeHookDels("fullsync "+w[1], wd)
 		} else {
 			r.classifyFailures("fullsync "+w[1], all, false)
+			r.judgeHookDels("fullsync "+w[1], wd)
 			r.drvSync(prior, wd, "fullsync", r.takeDump(), sub)
 		}
 		r.synced = w[1]
@@ -492,6 +494,7 @@ func (r *C15Run) Exec(line string) error {
 		}
 		sub, all := r.newFailures()
 		r.classifyFailures(line, all, false)
+		r.judgeHookDels(line, wd)
 		if steps != nil {
 			// policy event handlers are compositions of the two sync steps: correspondence of the composition
 			r.drvSync(prior, wd, "sync "+strings.Join(steps, " "), r.takeDump(), sub)
@@ -573,6 +576,7 @@ func (r *C15Run) check(w string) error {
 	}
 	_, all := r.newFailures()
 	r.classifyFailures("second fullsync "+w, all, false)
+	r.judgeHookDels("second fullsync "+w, wd)
 	again := r.takeDump()
 	if again.Canon() != got.Canon() {
 		// only sets that lost an option-changed entry differ, and the second sync restored exactly those entries?
@@ -978,6 +982,9 @@ func GenHistory(rg *rand.Rand) []string {
 		ps[i] = genPolicyLike(rg, nil, ps[i].NS, ps[i].Name)
 	}
 	a := &WorldDef{C: *c, PS: ps}
+	if rg.Intn(3) == 0 {
+		SubstringNames(rg, a)
+	}
 	b := mutateWorld(rg, a)
 	emitWorld := func(name string, w *WorldDef) {
 		ops = append(ops, "world "+name)
